@@ -1066,6 +1066,44 @@ impl<'a, 'e, 'ast> Visit<'ast> for Rewriter<'a, 'e> {
             self.ed.replace(ma, mb, vec![Self::lit("shim_parse")], "R24");
             self.fire("R24");
         }
+        // R33: Result/Option combinators that apply their closure at most once, replaced by their definition (the method name and the
+        //      closure's arity fix the receiver type; anything else does not type-check and leaves the unit undecided):
+        //        X.map_err(|e| B)        ->  (match X { Ok(shim_v) => Ok(shim_v), Err(e) => Err(B) })
+        //        X.ok_or_else(|| B)      ->  (match X { Some(shim_v) => Ok(shim_v), None => Err(B) })
+        //        X.unwrap_or_else(|| B)  ->  (match X { Some(shim_v) => shim_v, None => B })
+        //        X.unwrap_or_else(|e| B) ->  (match X { Ok(shim_v) => shim_v, Err(e) => B })
+        //      not applied when B contains `return` or `?` (they would leave the enclosing function instead of the closure)
+        else if (name == "map_err" || name == "ok_or_else" || name == "unwrap_or_else") && m.args.len() == 1
+            && matches!(&m.args[0], syn::Expr::Closure(c) if c.capture.is_none() && c.asyncness.is_none() && c.inputs.len() <= 1 && {
+                let mut sc = ExitScan(false); sc.visit_expr(&c.body); !sc.0 })
+        {
+            if let syn::Expr::Closure(c) = &m.args[0] {
+                fn pat_text(p: &syn::Pat) -> Option<String> {
+                    match p {
+                        syn::Pat::Ident(pi) if pi.by_ref.is_none() && pi.subpat.is_none() => Some(pi.ident.to_string()),
+                        syn::Pat::Wild(_) => Some("_".to_string()),
+                        syn::Pat::Type(t) => pat_text(&t.pat),
+                        _ => None,
+                    }
+                }
+                let arity = c.inputs.len();
+                let pt = if arity == 1 { pat_text(&c.inputs[0]) } else { None };
+                let shape: Option<(String, &str, String, &str)> = match (name.as_str(), arity, pt) {
+                    ("map_err", 1, Some(e)) => Some((" { Ok(shim_v) => Ok(shim_v), Err(".to_string() + &e + ") => Err(", ")", String::new(), "")),
+                    ("ok_or_else", 0, _) => Some((" { Some(shim_v) => Ok(shim_v), None => Err(".to_string(), ")", String::new(), "")),
+                    ("unwrap_or_else", 0, _) => Some((" { Some(shim_v) => shim_v, None => (".to_string(), ")", String::new(), "")),
+                    ("unwrap_or_else", 1, Some(e)) => Some((" { Ok(shim_v) => shim_v, Err(".to_string() + &e + ") => (", ")", String::new(), "")),
+                    _ => None,
+                };
+                if let Some((head, tail, _, _)) = shape {
+                    let pieces = vec![Self::lit("(match "), self.sub(m.receiver.span()), Self::lit(&head), self.sub(c.body.span()),
+                                      Self::lit(tail), Self::lit(" })")];
+                    self.ed.replace(a, b, pieces, "R33");
+                    self.fire("R33");
+                    self.consume(&m.args[0]);
+                }
+            }
+        }
         // R15 (function argument): OPT.map(PATH)  ->  match OPT { Some(x) => Some(PATH(x)), None => None }
         else if name == "map" && m.args.len() == 1 && matches!(&m.args[0], syn::Expr::Path(_)) {
             let pieces = vec![Self::lit("(match "), self.sub(m.receiver.span()), Self::lit(" { Some(shim_x) => Some("),
